@@ -111,6 +111,8 @@ Hypothesis Hwf : wf g.
 Hypothesis Hlen : length (ns st0) = length g.
 Hypothesis Hlt : forall i s, nth_error (ns st0) i = Some s -> ctime s < t.
 
+Hypothesis Hlive : live g t (delivered g env st0).
+
 Let D := denot g t (delivered g env st0).
 Let post := post_node g env t st0.
 Let ev := event_of g env t st0.
@@ -324,12 +326,15 @@ Proof.
       assert (Hp : (p < i)%nat) by (eapply Hwf; eauto; simpl; auto).
       destruct (IH p st dl HI ltac:(lia) ltac:(lia)) as [st1 [dl1 [E1 [HI1 [Hin1 Hle1]]]]].
       rewrite E1. rewrite (crdd_at_done st1 _ p HI1 Hin1).
+      (* the early return (parent holds no RDD) is excluded by [live] *)
+      pose proof (Hlive i f p Hg) as Hdef. fold D in Hdef.
+      destruct (nth p D RNone) as [|r] eqn:Ed; [exfalso; apply Hdef; reflexivity|].
       assert (Hnin1 : ~ In i (dl ++ dl1)).
       { intro H. apply in_app_or in H as [H|H]; auto. apply Hle1 in H; lia. }
-      destruct (finish_inv st1 _ i s0 (f t (nth p D RNone)) (EvFire i t [nth p D RNone])
+      destruct (finish_inv st1 _ i s0 (f t (RRdd r)) (EvFire i t [RRdd r])
                   HI1 Hi Hnin1 Hs0) as [st' [Hfin HI']].
-      * rewrite (post_nonsrc i (Trans f p) s0 Hg ltac:(intros k; discriminate) Hs0). reflexivity.
-      * rewrite (ev_nonsrc i (Trans f p) Hg ltac:(intros k; discriminate)). reflexivity.
+      * rewrite (post_nonsrc i (Trans f p) s0 Hg ltac:(intros k; discriminate) Hs0). simpl. rewrite Ed. reflexivity.
+      * rewrite (ev_nonsrc i (Trans f p) Hg ltac:(intros k; discriminate)). simpl. rewrite Ed. reflexivity.
       * exists st', (dl1 ++ [i]). split; [exact Hfin|].
         rewrite app_assoc. split; [exact HI'|]. split; [apply in_or_app; right; simpl; auto|].
         intros j Hj. apply in_app_or in Hj as [Hj|[<-|[]]]; [apply Hle1 in Hj; lia|lia].
